@@ -112,3 +112,24 @@ Proof.
   assert (D : (length (firstn 12 (firstn 15 c)) / 2 <= 12 / 2)%nat) by (apply Nat.div_le_mono; [discriminate|exact L]).
   exact D.
 Qed.
+
+(* join-accept: the RFU bits of the RxDelay octet do not reach the decoded value *)
+Lemma land15_idem x : N.land (N.land x 15) 15 = N.land x 15.
+Proof. rewrite <- N.land_assoc. reflexivity. Qed.
+
+Lemma ja_rxdelay_rfu_ignored_12 j0 j1 j2 n2 n1 n0 a3 a2 a1 a0 dl rxd :
+  joinaccept_unmarshal [j0; j1; j2; n2; n1; n0; a3; a2; a1; a0; dl; rxd] =
+  joinaccept_unmarshal [j0; j1; j2; n2; n1; n0; a3; a2; a1; a0; dl; N.land rxd 15].
+Proof. rewrite !ja_unmarshal_12, land15_idem. reflexivity. Qed.
+
+Lemma ja_rxdelay_rfu_ignored_28 j0 j1 j2 n2 n1 n0 a3 a2 a1 a0 dl rxd cf : length cf = 16%nat ->
+  joinaccept_unmarshal (j0 :: j1 :: j2 :: n2 :: n1 :: n0 :: a3 :: a2 :: a1 :: a0 :: dl :: rxd :: cf) =
+  joinaccept_unmarshal (j0 :: j1 :: j2 :: n2 :: n1 :: n0 :: a3 :: a2 :: a1 :: a0 :: dl :: N.land rxd 15 :: cf).
+Proof. intros L. rewrite !ja_unmarshal_28 by exact L. rewrite land15_idem. reflexivity. Qed.
+
+Lemma fhdr_too_long_refused h opts :
+  items_marshal (fopts h) = Ok opts -> (15 < length opts)%nat -> fhdr_marshal h = Err.
+Proof.
+  intros Ho Hl. unfold fhdr_marshal. rewrite Ho. cbn [bind]. cbv zeta.
+  replace (15 <? N.of_nat (length opts)) with true by lia. reflexivity.
+Qed.
